@@ -48,18 +48,18 @@ theorem udp_cancel_eq (name : String) (u : UdpSock) :
       udpAbortRecvEffs u ++ (udpAbortSendEffs u ++ [.cancelTimer name 0]) ++ [.cancelTimer name 0]) := rfl
 
 theorem postsOf_udpAbortRecvEffs (u : UdpSock) :
-    (postsOf (udpAbortRecvEffs u)).map (·.h) = (u.recvH.map (·.h)).toList ++ u.waitRecvH.toList
-    ∧ (∀ c ∈ postsOf (udpAbortRecvEffs u), c.ec = .aborted)
+    (h4_postsOf (udpAbortRecvEffs u)).map (·.h) = (u.recvH.map (·.h)).toList ++ u.waitRecvH.toList
+    ∧ (∀ c ∈ h4_postsOf (udpAbortRecvEffs u), c.ec = .aborted)
     ∧ noInvoke (udpAbortRecvEffs u) := by
   unfold udpAbortRecvEffs
-  cases u.recvH <;> cases u.waitRecvH <;> simp [postsOf, NEff.isInvoke]
+  cases u.recvH <;> cases u.waitRecvH <;> simp [h4_postsOf, NEff.isInvoke]
 
 theorem postsOf_udpAbortSendEffs (u : UdpSock) :
-    (postsOf (udpAbortSendEffs u)).map (·.h) = u.waitSendH.toList
-    ∧ (∀ c ∈ postsOf (udpAbortSendEffs u), c.ec = .aborted)
+    (h4_postsOf (udpAbortSendEffs u)).map (·.h) = u.waitSendH.toList
+    ∧ (∀ c ∈ h4_postsOf (udpAbortSendEffs u), c.ec = .aborted)
     ∧ noInvoke (udpAbortSendEffs u) := by
   unfold udpAbortSendEffs
-  cases u.waitSendH <;> simp [postsOf, NEff.isInvoke]
+  cases u.waitSendH <;> simp [h4_postsOf, NEff.isInvoke]
 
 theorem effIds_udpAbortRecvEffs (u : UdpSock) :
     effIds (udpAbortRecvEffs u) = (u.recvH.map (·.h)).toList ++ u.waitRecvH.toList := by
